@@ -1628,3 +1628,37 @@ Check C06_frame_segments_file_root_refuted :
   /\ (exists ops u', Forall psm_op_usv ops /\ path_segments_session true fr_url ops = Some (u', SOk)
         /\ u' <> with_path fr_url (session_text STFile (path_bytes fr_url) ops)).
 Print Assumptions C06_frame_segments_file_root_refuted.
+
+(* 32. The premises of section 31 hold of every canonical file record of C02 (FileCanon: every parse result of a file URL
+   without base outside Known_file_drive - C02_parse_file_Canon5 -, closed under set_query / set_fragment, the results of
+   from_file_path): well-formed, '/' behind the scheme, scheme type file, path text "/" or '/' followed by a byte other
+   than '/' (Proofs/C06_SegFileCanon.v).  So on such a record only the side condition on the session remains. *)
+From RU Require Import Proofs.C02_FileCanon Proofs.C06_SegFileCanon.
+
+Theorem C06_frame_segments_FileCanon : forall dbg hp hpo hd u ops u', HostRT hp hpo hd -> FileCanon hp hd u ->
+  file_session_ok (path_bytes u) ops = true -> Forall psm_op_usv ops ->
+  path_segments_session dbg u ops = Some (u', SOk) ->
+  (wf_b u = true /\ byte_eqb (ser u) (scheme_end u + 1) 47 = true /\ st_of u = STFile /\ file_path_ok (path_bytes u) = true)
+  /\ path u = Some (path_bytes u) /\ u' = with_path u (session_text STFile (path_bytes u) ops)
+  /\ file_path_ok (session_text STFile (path_bytes u) ops) = true.
+Proof.
+  intros dbg hp hpo hd u ops u' HRT K Hok Hu H. split; [exact (FileCanon_session_premises dbg hp hpo hd HRT u K)|].
+  exact (psm_session_FileCanon dbg hp hpo hd HRT u ops u' K Hok Hu H).
+Qed.
+Check C06_frame_segments_FileCanon : forall dbg hp hpo hd u ops u', HostRT hp hpo hd -> FileCanon hp hd u ->
+  file_session_ok (path_bytes u) ops = true -> Forall psm_op_usv ops ->
+  path_segments_session dbg u ops = Some (u', SOk) ->
+  (wf_b u = true /\ byte_eqb (ser u) (scheme_end u + 1) 47 = true /\ st_of u = STFile /\ file_path_ok (path_bytes u) = true)
+  /\ path u = Some (path_bytes u) /\ u' = with_path u (session_text STFile (path_bytes u) ops)
+  /\ file_path_ok (session_text STFile (path_bytes u) ops) = true.
+Print Assumptions C06_frame_segments_FileCanon.
+
+(* file://h.example/a/b%20c?q#f with pop, pop, pop (down to "/"), push("d e"), push("C|") gives file://h.example/d%20e/C|?q#f *)
+Example C06_frame_segments_FileCanon_inhabited :
+  HostRT ex_hp ex_hp ex_hd /\ FileCanon ex_hp ex_hd fc_url /\ ser fc_url = B "file://h.example/a/b%20c?q#f"
+  /\ file_session_ok (path_bytes fc_url) fc_ops = true /\ Forall psm_op_usv fc_ops
+  /\ session_text STFile (path_bytes fc_url) fc_ops = B "/d%20e/C|"
+  /\ session_text STFile (path_bytes fc_url) [PPop; PPop; PPop] = B "/"
+  /\ path_segments_session true fc_url fc_ops = Some (with_path fc_url (B "/d%20e/C|"), SOk)
+  /\ ser (with_path fc_url (B "/d%20e/C|")) = B "file://h.example/d%20e/C|?q#f".
+Proof. exact file_canon_session_example. Qed.
